@@ -53,6 +53,36 @@ func rolloutLoop(r *Report, p *Program, rule string) (*ssa.Function, *engine.Ran
 	return f, loop, nil
 }
 
+// observedLookups: the renderings "call(<FindGroupKindName>)(<receiver>, " of the
+// lookups in f whose receiver is the observed-children parameter (index pi) or a
+// Convert() of it — the key domain of the observed map is C08's business (R08.1),
+// the rollout rules only need to recognise 'the observed child'.
+func observedLookups(f *ssa.Function, pi int) []string {
+	var out []string
+	if pi >= len(f.Params) {
+		return nil
+	}
+	for _, cs := range callsTo(f, false, ".FindGroupKindName") {
+		recv := cs.Recv()
+		if recv == nil {
+			continue
+		}
+		if engine.BackSlice(recv, func(x ssa.Value) bool { return x == ssa.Value(f.Params[pi]) }, func(k string) bool { return strings.HasSuffix(k, "UniformObjectMap.Convert") }) {
+			out = append(out, "call("+Short(cs.Key)+")("+E(recv)+", ")
+		}
+	}
+	return out
+}
+
+func containsAny(s string, subs []string) bool {
+	for _, x := range subs {
+		if strings.Contains(s, x) {
+			return true
+		}
+	}
+	return false
+}
+
 func r07_1(r *Report, p *Program) {
 	const rule = "R07.1"
 	r.Rule(rule, "one gated move per sync, in hook order")
@@ -70,7 +100,9 @@ func r07_1(r *Report, p *Program) {
 	okO := x == "p1[0].syncResult.Children" && strings.HasPrefix(loop.X.Type().String(), "[]")
 	r.Check(rule, FK(f)+"[hook-order]", p.InstrPos(loop.Header.Instrs[0]), okO, "ranges over the latest answer's Children slice", "the child to move next is chosen by iterating "+x+" ("+loop.X.Type().String()+"): not the order in which the hook listed its children")
 	// the moved child is the loop's element
-	okA := strings.Contains(E(add.Arg(2)), "GetName)("+E(loop.Val)) && strings.Contains(E(add.Arg(1)), "GetKind)("+E(loop.Val)) && E(add.Recv()) == "p1[0]"
+	nameArg := E(add.Arg(2))
+	okName := strings.Contains(nameArg, "GetName)("+E(loop.Val)) || (strings.Contains(nameArg, "RelativeName)(") || strings.Contains(nameArg, "relativeName)(")) && strings.HasSuffix(nameArg, ", "+E(loop.Val)+")")
+	okA := okName && strings.Contains(E(add.Arg(1)), "GetKind)("+E(loop.Val)) && E(add.Recv()) == "p1[0]"
 	r.Check(rule, FK(f)+"[moves-this-child-to-latest]", p.InstrPos(add.Instr), okA, "addChild(latest, group/kind/name of the listed child)", "the gated move does not add the listed child to the latest revision")
 	// it is the first child not on latest: every path to the gate crosses pr != latest; children on latest continue
 	w2 := unguarded(f, []engine.Point{{B: loop.Body}}, add.Instr.(ssa.Instruction), func(l Lit) bool {
@@ -89,7 +121,16 @@ func r07_3(r *Report, p *Program) {
 	}
 	w := unguarded(f, nil, add.Instr.(ssa.Instruction), func(l Lit) bool {
 		v, isNil, ok := l.NilTest()
-		return ok && isNil && E(v) == "call(controller/composite.parentController.shouldContinueRolling)(p0, p1[0], p2)"
+		if !ok || !isNil {
+			return false
+		}
+		c := callOf(v)
+		if c == nil || !strings.HasSuffix(engine.CallKey(c.Common()), "parentController.shouldContinueRolling") || len(c.Common().Args) != 3 {
+			return false
+		}
+		a := c.Common().Args
+		// asked about the latest revision and the observed children of this sync (as given, or converted to relative names)
+		return E(a[0]) == "p0" && E(a[1]) == "p1[0]" && engine.BackSlice(a[2], func(x ssa.Value) bool { return x == ssa.Value(f.Params[2]) }, func(k string) bool { return strings.HasSuffix(k, "UniformObjectMap.Convert") })
 	})
 	r.Check(rule, FK(f)+"[gated]", p.InstrPos(add.Instr), w == nil, "move only if shouldContinueRolling(latest, observed) == nil", "the move is reachable without the health gate (or the gate is asked about another revision / other children); "+pathWhy(w))
 	g := fn(r, p, rule, "controller/composite.parentController.shouldContinueRolling")
@@ -106,6 +147,11 @@ func r07_3(r *Report, p *Program) {
 			paths, err := engine.EnumPaths(g, engine.EnumOpts{Start: inner.Body, Leave: func(b *ssa.BasicBlock) bool { return b == inner.Header || b == inner.Exit }})
 			ok, why := err == nil, ""
 			child := "call(controller/common/api/v2.UniformObjectMap.FindGroupKindName)(p2, "
+			if ol := observedLookups(g, 2); len(ol) == 1 {
+				child = ol[0]
+			} else {
+				ok, why = false, sf("expected exactly one lookup of the observed child in the gate, found %d", len(ol))
+			}
 			nCont := 0
 			for _, pa := range paths {
 				if pa.EndKind != "leave" {
@@ -279,13 +325,29 @@ func r07_4(r *Report, p *Program) {
 			continue
 		}
 		n++
-		obs := "call(controller/common/api/v2.UniformObjectMap.FindGroupKindName)(p2, "
+		obsL := observedLookups(f, 2)
 		w1 := unguarded(f, nil, ai, func(l Lit) bool {
 			v, isNil, ok := l.NilTest()
-			return ok && !isNil && strings.HasPrefix(E(v), obs)
+			if !ok || isNil {
+				return false
+			}
+			for _, obs := range obsL {
+				if strings.HasPrefix(E(v), obs) {
+					return true
+				}
+			}
+			return false
 		})
 		w2 := unguarded(f, nil, ai, func(l Lit) bool {
-			return l.Pos && isDeepEqualLit(l) && strings.Contains(l.Atom, obs) && strings.Contains(l.Atom, "call(controller/common.ApplyUpdate)("+obs)
+			if !l.Pos || !isDeepEqualLit(l) {
+				return false
+			}
+			for _, obs := range obsL {
+				if strings.Contains(l.Atom, obs) && strings.Contains(l.Atom, "call(controller/common.ApplyUpdate)("+obs) {
+					return true
+				}
+			}
+			return false
 		})
 		ok := w1 == nil && w2 == nil
 		why := ""
